@@ -1,1 +1,7 @@
 HOOK_COMMITS = ["a8449cc", "643940d"]
+HOOK_COMMITS.append("90c9932")
+CLAIMED["C05"] = dict(
+  text="Deductive proof on the real source that every cell of the arithmetic, bitwise, comparison and logical kind x kind tables of pkg/reflectmath.go computes the documented operator on number CLASSES (signed/unsigned/float): int op int in 64-bit two's complement, int-to-float64 promotion (RNE) as soon as a float is involved, `/` always the float64 quotient, `%` Go's truncated remainder, `+` concatenating with the documented formatting when a string is involved; for ALL operand values and all kind pairs, with no escaping panic on well-typed operands.",
+  note="Slice: the evaluation half (operator tables; the Expression/ExpressionAtom dispatch is added when the ast contracts land). NOT decided: grouping/precedence/associativity and insensitivity to whitespace, comments, parentheses and keyword case — properties of the ANTLR-generated parser, which no contract within reach expresses (T-ANTLR); literal decoding by strconv (T-STR). Trusted: reflect model, fmt verbs as uninterpreted per-verb formatters, float32 modelled as the float64 it converts to. Spec decisions where docs are silent are listed in DESIGN §4 C05.",
+  design="§4 C05")
+NA.pop("C05", None)
